@@ -811,8 +811,17 @@ func boundChecked(fn *ssa.Function, ia *ssa.IndexAddr) bool {
 		}
 		isIdx := func(v ssa.Value) bool { return sameExpr(core.SkipConv(v), core.SkipConv(ia.Index), 3) }
 		if (isLen(bo.X) && isIdx(bo.Y)) || (isLen(bo.Y) && isIdx(bo.X)) {
-			if ifi.Block().Dominates(ia.Block()) {
-				found = true
+			// the edge that leads to the access must establish index < len exactly (`index > len` leaves index == len in)
+			onTrue, onFalse, okRel := core.CondRelation(ifi.Cond, isIdx, isLen)
+			if !okRel {
+				return
+			}
+			blk := ifi.Block()
+			switch {
+			case blk.Succs[0] != blk.Succs[1] && len(blk.Succs[0].Preds) == 1 && blk.Succs[0].Dominates(ia.Block()):
+				found = onTrue == core.OrdLT
+			case blk.Succs[0] != blk.Succs[1] && len(blk.Succs[1].Preds) == 1 && blk.Succs[1].Dominates(ia.Block()):
+				found = onFalse == core.OrdLT
 			}
 		}
 	})
